@@ -546,6 +546,11 @@ async fn run(lines: Vec<String>, prop: String, out: &mut Out) {
 				let mut expected: Vec<String> = vec![];
 				let mut arrays_expected = 0usize;
 				for m in &msgs {
+					// a message above max_request_body_size is refused as a whole: one -32007 reply with id null
+					if m.len() as u64 > c.env.cfg.max_req as u64 {
+						expected.push("null".into());
+						continue;
+					}
 					match plain(m) {
 						Plain::Obj { id: PlainId::InDomain(i), .. } => expected.push(i),
 						Plain::Array(es) => {
